@@ -690,6 +690,8 @@ class Gen:
             return "(" + " × ".join(self.lean_ty(t_) for t_ in ty[6:-1].split(",")) + ")"
         if ty == "Leaf":
             return "Nat"     # a leaf value: an opaque identifier (its hash and index are reads)
+        if ty == "Symbol":
+            return "Nat"     # a role / function name: an opaque identifier
         if ty in ("Address", "MuxedAddress"):
             return "Nat"     # an account / contract: an opaque identifier (a muxed address: its account)
         if ty == "Bytes32":
@@ -724,6 +726,8 @@ class Gen:
             r, rt = self.pure(e[3], env)
             if lt == rt and lt in getattr(self, "enums", {}) and e[1] in ("==", "!="):
                 return f"({l} {'=' if e[1] == '==' else '≠'} {r})"
+            if lt == rt and lt in ("Address", "Symbol") and e[1] in ("==", "!="):
+                return f"({l} {'=' if e[1] == '==' else '≠'} {r})"
             if lt == rt == "Bytes32":
                 if e[1] in ("==", "!="):
                     return f"({l} {'=' if e[1] == '==' else '≠'} {r})"
@@ -742,6 +746,8 @@ class Gen:
             return f"({l} {op} {r})"
         if e[0] == "un" and e[1] == "!":
             return f"(¬ {self.cond(e[2], env)})"
+        if e[0] == "var" and e[1] in env and env[e[1]][1] == "bool":
+            return f"({env[e[1]][0]} = true)"
         if e[0] == "mcall" and e[2] == "is_multiple_of" and len(e[3]) == 1:
             l, lt = self.pure(e[1], env)
             a_ = self.strip(e[3][0])
@@ -902,6 +908,17 @@ class Gen:
         st_ = self.storage_get(e, env)
         if st_ is not None:
             return st_
+        if e[0] == "mcall" and e[2] == "inspect" and len(e[3]) == 1 and self.strip(e[3][0])[0] == "closure":
+            inner = self.storage_get(self.strip(e[1]), env)
+            cb = self.strip(self.strip(e[3][0])[2])
+            while cb[0] == "block" and not cb[1] and cb[2] is not None:
+                cb = self.strip(cb[2])
+            if inner is not None and cb[0] == "mcall" and cb[2] == "extend_ttl":
+                return inner   # `.inspect(|_| extend_ttl(..))`: TTL bookkeeping only
+        if e[0] == "mcall" and e[2] in ("is_some", "is_none") and not e[3]:
+            l, t = self.pure(e[1], env)
+            if t.startswith("Option<"):
+                return (f"(Option.{'isSome' if e[2] == 'is_some' else 'isNone'} {l})", "bool")
         if e[0] == "mcall" and e[2] == "unwrap_or" and len(e[3]) == 1:
             inner = self.storage_get(self.strip(e[1]), env)
             if inner is not None:
@@ -1853,6 +1870,9 @@ FILES_MERKLE = [("Merkle", "packages/contract-utils/src/crypto/hashable.rs", ["c
                 ("Merkle", "packages/contract-utils/src/crypto/merkle.rs", ["verify", "verify_with_index"])]
 TYMAPS_MERKLE = {"packages/contract-utils/src/crypto/hashable.rs": {"H": "Bytes32", "S": "Hasher!", "Output": "Bytes32"},
                  "packages/contract-utils/src/crypto/merkle.rs": {"H": "Hasher!"}}
+STORE_AC = {"Access": {"HasRole": (["Address", "Symbol"], "u32"), "Admin": ([], "Address"), "RoleAdmin": (["Symbol"], "Symbol")}}
+FILES_AC = [("Access", "packages/access/src/access_control/storage.rs",
+             ["has_role", "get_admin", "get_role_admin", "ensure_if_admin_or_admin_role", "ensure_role"])]
 STORE_RWA = {"Rwa": {"Balance": (["Address"], "i128"), "TotalSupply": ([], "i128"), "AddressFrozen": (["Address"], "bool"),
                      "FrozenTokens": (["Address"], "i128"), "Compliance": ([], "Address")}}
 READS_RWA = {"Rwa": {"ComplianceClient_transferred": ("fn", ["Address", "Address", "i128"], "()"),
@@ -2363,7 +2383,9 @@ def main():
                 sys.stdout.write(txt)
         sys.exit(rc)
     try:
-        if "--rwa" in sys.argv:
+        if "--access" in sys.argv:
+            txt = translate(repo, FILES_AC, reads={"Access": {}}, store=STORE_AC)
+        elif "--rwa" in sys.argv:
             txt = translate(repo, FILES_RWA, reads=READS_RWA, store=STORE_RWA, impl_types={"Base": "Rwa", "RWA": "Rwa"})
         elif "--timelock-st" in sys.argv:
             txt = translate(repo, FILES_TL, reads=READS_TL, structs=STRUCTS_TL, store=STORE_TL,
